@@ -983,6 +983,94 @@ def queries(ctx, rng):
         ctx.sample({"case": r0["id"], "q": r0["q"], "S": r0["S"][:6], "exact_ranks": plans[r0["id"]]["lt"][:6], "answers": [dict(e, call=tags["%s#%d" % (r0["id"], e["j"])]) for e in r0["ents"][:3]]})
 
 
+# =============================================================================== 5. polar caps
+CAP_CFGS = [("ball", "spherical", "haversine"), ("ball", "cartesian", "minkowski"), ("kd", "cartesian", "minkowski")]
+CAP_MARGIN = 1e-9  # rad
+
+
+def run_cap_group(grp):
+    """Queries on a polar-cap mesh (elements 0.01 .. 1 degree from a pole, centres derived by the library)
+    against a float brute force on independently computed exact directions (tie margin 1e-9 rad)."""
+    entry, kind, qs = grp["entry"], grp["kind"], grp["qs"]
+    fails, n_ans = [], 0
+    nearest = {}
+    try:
+        g0 = X.build_grid(entry)
+        ref = X.cap_reference(entry, g0, kind)
+    except Exception as e:  # noqa
+        return {"kind": kind, "pole": grp["pole"], "fails": [("Raises", "grid", "%s: %s" % (type(e).__name__, str(e)[:160]), {})], "n": 0}
+    n = ref.shape[0]
+    for tree, system, metric in CAP_CFGS:
+        cfgname = "%s/%s/%s" % (tree, system, metric)
+        try:
+            g = X.build_grid(entry)
+            h = (g.get_ball_tree if tree == "ball" else g.get_kd_tree)(coordinates=kind, coordinate_system=system, distance_metric=metric)
+        except Exception as e:  # noqa
+            fails.append(("Raises", cfgname, "%s: %s" % (type(e).__name__, str(e)[:160]), {"cfg": cfgname}))
+            continue
+        for unit in (["deg", "rad"] if system == "spherical" else ["xyz"]):
+            for qi, q in enumerate(qs):
+                ang = X.angles_to(ref, q)
+                coords = X.present(q, system, "lonlat", unit)
+                place = grp["qplace"][qi]
+                sig = {"cfg": cfgname, "unit": unit, "class": "polar_cap", "place": place, "pole": grp["pole"]}
+                tag = "%s|%s|q=%s" % (cfgname, unit, q)
+                sc = (X.RAD2DEG if unit == "deg" else 1.0) if system == "spherical" else None
+                try:
+                    for k in (1, 3, min(9, n)):
+                        d, ind = call_query(tree, system, h, coords, k, unit)
+                        ind, d = X.flat_int(ind), X.flat_float(d)
+                        n_ans += 1
+                        for cl in X.float_knn_failed(ang, k, ind, scale=CAP_MARGIN / X.TIE):
+                            fails.append((cl, tag + "|knn k=%d" % k, {"res": ind, "expected_nearest": int(np.argmin(ang)), "angles_deg": [round(float(np.degrees(ang[e])), 6) for e in ind[:3] if 0 <= e < n]}, sig))
+                        exp = [(ang[e] * sc) if sc else 2.0 * math.sin(ang[e] / 2.0) for e in ind if 0 <= e < n]
+                        if len(exp) != len(d) or any(abs(a - b) > 1e-9 * (sc or 1.0) for a, b in zip(exp, d)):
+                            fails.append(("DistanceUnit", tag + "|knn k=%d" % k, {"d": d[:3], "expected": exp[:3]}, sig))
+                        if k == 1 and ind:
+                            nearest.setdefault((qi, unit if unit != "rad" else "deg"), {})[system] = ind[0]
+                    srt = np.sort(ang)
+                    gaps = [i for i in range(min(len(srt) - 1, 12)) if srt[i + 1] - srt[i] > 1e-7]
+                    for gi in gaps[:3]:
+                        r_rad = (srt[gi] + srt[gi + 1]) / 2.0
+                        r = (math.degrees(r_rad)) if system == "spherical" else 2.0 * math.sin(r_rad / 2.0)
+                        ind = X.flat_int(call_radius(tree, system, h, coords, r, unit))
+                        n_ans += 1
+                        for cl in X.float_radius_failed(ang, r_rad, ind, scale=CAP_MARGIN / X.TIE):
+                            fails.append((cl, tag + "|r=%.6g" % r, {"res": sorted(ind), "expected": sorted(int(e) for e in np.nonzero(ang < r_rad)[0])}, sig))
+                except Exception as e:  # noqa
+                    fails.append(("Raises", tag, "%s: %s" % (type(e).__name__, str(e)[:160]), sig))
+    # a spherical and a Cartesian tree must agree on the nearest element (exact ties aside)
+    for (qi, _u), byt in nearest.items():
+        if len(byt) == 2 and byt["spherical"] != byt["cartesian"]:
+            ang = X.angles_to(ref, qs[qi])
+            a, b = byt["spherical"], byt["cartesian"]
+            if 0 <= a < n and 0 <= b < n and abs(ang[a] - ang[b]) > CAP_MARGIN:
+                fails.append(("SystemsAgree", "q=%s" % qs[qi], {"spherical_tree": a, "cartesian_tree": b, "angles_deg": [float(np.degrees(ang[a])), float(np.degrees(ang[b]))]}, {"class": "polar_cap", "place": grp["qplace"][qi], "pole": grp["pole"]}))
+    return {"kind": kind, "pole": grp["pole"], "fails": fails, "n": n_ans}
+
+
+def polar_caps(ctx, rng, cap):
+    groups = []
+    for pole in cap["poles"]:
+        entry = X.cap_mesh(pole, cap["places"], cap["unit_inv"])
+        qs = X.cap_queries(entry, cap["unit_inv"], pole, rng, per_patch=6 if ctx.tier == "thorough" else 3)
+        per = (len(qs) - 1) // len(cap["places"])
+        qplace = [0] + [cap["places"][i // per] for i in range(len(qs) - 1)]
+        for kind in X.KINDS:
+            groups.append({"entry": entry, "kind": kind, "qs": qs, "qplace": qplace, "pole": pole})
+    res = pmap(run_cap_group, groups, chunk=1)
+    total = 0
+    for r in res:
+        total += r["n"]
+        for clause, tag, detail, sig in r["fails"]:
+            ctx.violation("polar_cap_%s|%s::%s" % ("N" if r["pole"] > 0 else "S", r["kind"], tag), clause, detail=detail, replay={"mesh": "harness.x_c11.cap_mesh(pole=%d, places=%s, unit_inv=%d)" % (r["pole"], cap["places"], cap["unit_inv"]), "kind": r["kind"], "call": tag}, sig=dict(sig, kind=r["kind"]))
+    ctx.count(total, None)
+    ctx.evaluations += 0
+    ctx.traces += total
+    ctx.note("polar_cap_answers(float brute force on exact directions, 1e-9 rad tie margin)", total)
+    ctx.note("polar_cap_plan(from TLC)", cap)
+
+
 # =============================================================================== run
 def run(ctx):
     rng = random.Random(ctx.seed)
@@ -997,9 +1085,10 @@ def run(ctx):
         "k-d trees and Manhattan trees have no algebraic order on the lattice: those answers are judged by a float brute force on the grid's own "
         "reported coordinates with a 1e-9 tie margin. Non-trivial = answer with k > 1, a radius answer, or a case with exact ties; history with >= 2 requests."
     )
-    laws(ctx)
+    cap = laws(ctx)
     tree_model(ctx)
     X.warm()
+    polar_caps(ctx, rng, cap)
     histories(ctx, rng)
     queries(ctx, rng)
     ctx.assumptions += [
@@ -1009,4 +1098,5 @@ def run(ctx):
         "scikit-learn is the thing under test, not an oracle",
         "radius unit: BallTree.query_radius documents r in degrees; cartesian trees take chord lengths; for spherical k-d trees r is read in the unit in which that call reports distances",
         "later requests changing an earlier handle (aliasing of the cached wrapper) are reported, not judged",
+        "polar caps (elements 0.01 .. 1 degree from a pole, derived centres): directions need coordinates ~6000, beyond 32-bit exact comparison; judged by a float brute force on independently computed exact directions, 1e-9 rad tie margin; places and poles come from Nearest!CapPlan",
     ]
